@@ -64,7 +64,7 @@ class Run(object):
       result = 'EXC:FailureSub'
     elif r == 'raise_fbase':
       result = 'EXC:FailureBase'
-    elif r in ('bad', 'bad0'):
+    elif r in ('bad', 'bad0', 'badstr', 'badrep'):
       result = 'EXC:InvalidPhaseResultError'
     elif r == 'sysexit':
       result = 'KILLED'        # the phase thread died without a result (SystemExit): like a killed phase
